@@ -19,6 +19,7 @@ import (
 func (s *Server) diagnoseRaw(input string, listener *SyslErrorListener) parser.ISysl_fileContext {
 	var chars = antlr.NewInputStream(input)
 	var lexer = parser.NewSyslLexer(chars)
+	defer parser.DeleteLexerState(lexer)
 	var tokens = antlr.NewCommonTokenStream(lexer, antlr.TokenDefaultChannel)
 	var parser = parser.NewSyslParser(tokens)
 
